@@ -28,7 +28,7 @@ var Metas = map[string]Meta{
 	"C14": {Category: "fault_enumeration", Rule: "for each sampled workload the sink fails at call k for every k (thorough, and quick when the fault-free run makes <= 64 calls; otherwise first/last 8 and a stratified sample); one evaluation = one (workload, k) run; non-trivial = the injected fault actually fired; distinct = distinct schedule signature"},
 	"C16": {Category: "exploration", Rule: "all histories over {Write(0), Write(small), Write(70000), Flush, Close, Reset} up to length 4 (5 thorough), the constructor level table -4..11, then random histories up to length 40, each in lock-step with the stdlib Writer; non-trivial = more than one operation; distinct = distinct schedule signature"},
 	"C02": {Category: "exploration", CrossLevel: true, Rule: "one run = one stream accepted by compress/flate (stdlib or fastgo encoder history, or block synthesiser) read through a drawn source kind, delivery schedule and Read-size schedule; non-trivial = stdlib accepts and the output is non-empty; distinct = distinct schedule signature (source refill sizes/outcomes, result)"},
-	"C03": {Category: "exploration", CrossLevel: true, Rule: "one run = one malformed/truncated/random input (planted structural fault, blind mutation, truncation; every 16th run index sweeps the truncation point over every byte of a small valid stream) on a fresh or reused Reader; non-trivial = non-empty input; distinct = distinct schedule signature"},
+	"C03": {Category: "exploration", CrossLevel: true, Rule: "one run = one malformed/truncated/random input (planted structural fault, blind mutation, truncation; every 16th (thorough: 64th) run index sweeps the truncation point over every byte of a small valid stream) on a fresh or reused Reader; non-trivial = non-empty input; distinct = distinct schedule signature"},
 	"C04": {Category: "exploration", CrossLevel: true, Rule: "one run = one valid or truncated stream read all-at-once and under 8 (12 thorough) delivery/Read-size schedules, three of them aimed at a block header or block end; one evaluation = one schedule; non-trivial = non-empty input; distinct = distinct schedule signature"},
 	"C05": {Category: "exploration", CrossLevel: true, Rule: "one run = valid stream/container followed by a suffix, read to io.EOF through a source kind and constructor; non-trivial = non-empty suffix; distinct = distinct schedule signature"},
 	"C06": {Category: "exploration", Rule: "one run = one gzip/zlib Writer history (header fields, level, partition, Reset reuse) executed by fastgo and by the stdlib Writer; every cleanly closed container is read by the opposite implementation; non-trivial = at least one byte written; distinct = distinct schedule signature"},
